@@ -1,5 +1,7 @@
 (* C06 property theorems: statements only, each closed by `exact`.
-   cd : which code (current = pinned tree; repaired = with proposed_fixes/C06-*.diff), c : output settings,
+   cd : which code variant; `repaired` (all flags on) is the code as it is in /repo now -- the correspondence is pinned to
+   it (obligation model-variant); `current` is the tree as originally pinned, whose failures are the lemmas *_refuted of
+   Witness.v (historical).  c : output settings,
    tag : run number, h : walk-order hints (any list), s : state of folder + archive on disk.
    stored c g s  = the complete result of generation g (.completed, summary, results files, samples table if
                    enabled) is in the folder (no archive) or inside a complete archive.
@@ -18,13 +20,6 @@ Theorem C06_complete_once_partial : forall cd c tag h s g,
   /\ plan_sampled cd c tag h s = false
   /\ stored c g (run_full cd c tag h s).
 Proof. exact complete_once. Qed.
-
-(* without the guard it fails on the code as it is: killed while rewriting search_internal.dill after completion *)
-Theorem C06_complete_once_refuted : exists k : nat,
-  let s1 := run_crash current cD 1 [] k VEmpty (s_done cD) in
-  stored cD 0 s1 /\ plan_out current cD 2 [] s1 = inl EOFErr
-  /\ plan_out current cD 3 [] (run_full current cD 2 [] s1) = inl EOFErr.
-Proof. exact complete_once_refuted. Qed.
 
 (* full statement for the repaired code, over every state any history of runs and crashes can produce *)
 Theorem C06_complete_once_repaired : forall c runs tag h g,
@@ -52,15 +47,6 @@ Theorem C06_durable_history_partial : forall cd c g runs tag s,
   stored c g s -> no_partial_zip cd c tag runs s -> stored c g (history cd c tag runs s).
 Proof. exact durable_history_guarded. Qed.
 
-(* the truncated archive is fatal on the code as it is: the next run deletes the folder and raises BadZipFile *)
-Theorem C06_durable_refuted : exists (c : cfg) (g : nat) (s : fs) (k : nat) (v : variant),
-  stored c g s /\
-  let s1 := run_crash current c 1 [] k v s in
-  let s2 := run_full current c 2 [] s1 in
-  plan_out current c 2 [] s1 = inl BadZip /\ ~ stored c g s2 /\
-  fd s2 Marker = Absent /\ fd s2 Summary = Absent /\ fz s2 = ZPartial.
-Proof. exact durable_refuted. Qed.
-
 (* full statement once zip_directory is atomic: every history preserves a stored result *)
 Theorem C06_durable_history_repaired : forall cd c g runs, fx_zip cd = true ->
   forall tag s, stored c g s -> stored c g (history cd c tag runs s).
@@ -77,42 +63,28 @@ Proof. exact inv_reachable. Qed.
 (* from every reachable state that is not one of the explicitly excluded unreadable situations, an
    uninterrupted run terminates normally and leaves the complete result it returns *)
 Theorem C06_resume_partial : forall cd c tag h s,
-  Inv cd c s -> recoverable cd c s ->
-  exists r, plan_out cd c tag h s = inr r /\ stored c (r_tag r) (run_full cd c tag h s).
+  Inv cd c s -> recoverable cd c s -> sane c ->
+  exists r, plan_out cd c tag h s = inr r /\ stored c (r_tag r) (run_full cd c tag h s)
+            /\ (r_samples r = Some (r_tag r) \/ r_samples r = expected_samples c (r_tag r)).
 Proof. exact resume. Qed.
 
-(* the excluded situations are reachable by a single kill on the code as it is *)
-Theorem C06_resume_refuted_lbfgs : exists k : nat,
-  let s1 := run_crash current cL 0 [] k VBefore empty_fs in
-  Inv current cL s1 /\ fz s1 = ZAbsent /\
-  plan_out current cL 1 [] s1 = inl KeyErr /\
-  plan_out current cL 2 [] (run_full current cL 1 [] s1) = inl KeyErr.
-Proof. exact resume_refuted_lbfgs. Qed.
-
-Theorem C06_resume_refuted_start_time : exists k : nat,
-  let s1 := run_crash current cD 0 [] k VEmpty empty_fs in
-  plan_out current cD 1 [] s1 = inl ValueErr /\ plan_out current cD 2 [] (run_full current cD 1 [] s1) = inl ValueErr.
-Proof. exact resume_refuted_start_time. Qed.
-
-Theorem C06_resume_refuted_drawer_time : exists k : nat,
-  let s1 := run_crash current cD 0 [] k VEmpty empty_fs in plan_out current cD 1 [] s1 = inl ValueErr.
-Proof. exact resume_refuted_drawer_time. Qed.
-
-Theorem C06_resume_refuted_summary : exists k : nat,
-  let s1 := run_crash current cDk 0 [] k VHalf empty_fs in
-  plan_out current cDk 1 [] s1 = inl JSONDecode /\ plan_out current cDk 2 [] (run_full current cDk 1 [] s1) = inl JSONDecode.
-Proof. exact resume_refuted_summary. Qed.
-
-Theorem C06_resume_refuted_lbfgs_check : exists k : nat,
-  let s1 := run_crash current cLk 0 [] k VBefore empty_fs in
-  plan_out current cLk 1 [] s1 = inl SearchExc /\ plan_out current cLk 2 [] (run_full current cLk 1 [] s1) = inl SearchExc.
-Proof. exact resume_refuted_lbfgs_check. Qed.
-
 (* full statement for the repaired code: after ANY history the next uninterrupted run succeeds *)
-Theorem C06_resume_repaired : forall c runs tag h,
+Theorem C06_resume_repaired : forall c runs tag h, sane c ->
   let s := history repaired c 0 runs empty_fs in
-  exists r, plan_out repaired c tag h s = inr r /\ stored c (r_tag r) (run_full repaired c tag h s).
+  exists r, plan_out repaired c tag h s = inr r /\ stored c (r_tag r) (run_full repaired c tag h s)
+            /\ (r_samples r = Some (r_tag r) \/ r_samples r = expected_samples c (r_tag r)).
 Proof. exact resume_repaired. Qed.
+
+(* `sane` is needed: BFGS/LBFGS with maxiter = 0 raises UnboundLocalError on its first run *)
+Theorem C06_lbfgs_zero_updates_fails : forall rm csv keep chk,
+  plan_out repaired (mkcfg LBFGS 0 rm csv keep chk) 0 [] empty_fs = inl UnboundLocal.
+Proof. exact lbfgs_zero_updates_fails. Qed.
+
+(* the persisted search state of a completed fit (search_internal kept) is the same after a re-run *)
+Theorem C06_internal_kept : forall cd c tag h s g x,
+  stored c g s -> c_keep c = true -> eff_dir s Dill = Full x ->
+  eff_dir (run_full cd c tag h s) Dill = Full x.
+Proof. exact completed_keeps_internal. Qed.
 
 (* ---- directory walks: the outcome does not depend on the order the file system lists files in ---- *)
 Theorem C06_rmtree_any_order : forall h s r, fd (exec (rm_ops (present (fd s)) h) s) r = Absent.
@@ -128,4 +100,3 @@ Print Assumptions C06_durable_history_repaired.
 Print Assumptions C06_invariant_crash.
 Print Assumptions C06_resume_partial.
 Print Assumptions C06_resume_repaired.
-Print Assumptions C06_durable_refuted.
